@@ -477,7 +477,7 @@ def late_check(case):
 
 SUBS = [
     Sub("integrator_stiffness", a_check, strata=a_strata, strategy=a_strategy, n=(6, 40)),
-    Sub("stepper_precision", b_check, strata=b_strata, strategy=b_strategy, n=(1, 2)),
-    Sub("extreme_domain_precision", b_check, strata=c_strata, strategy=b_strategy, n=(2, 3)),
+    Sub("stepper_precision", b_check, strata=b_strata, strategy=b_strategy, n=(1, 1)),
+    Sub("extreme_domain_precision", b_check, strata=c_strata, strategy=b_strategy, n=(2, 1)),
     Sub("late_x64", late_check, strata=late_strata, strategy=late_strategy, n=(1, 2)),
 ]
